@@ -215,29 +215,11 @@ class C18(Prop):
 
     @staticmethod
     def parse_xml(txt):
-        nodes = []
-        for m in re.finditer(r'<v id="(\d+)"(?: />|>(.*?)</v>)', txt, re.S):
-            body = m.group(2) or ""
-            edges = re.findall(r'<e a="([^"]*)" to="(\d+)" />', body)
-            d = re.search(r"<data>(.*?)</data>", body, re.S)
-            nodes.append((int(m.group(1)), [(a, int(t)) for a, t in edges], d.group(1) if d else None))
-        return nodes
+        return engine.canon_xml(txt) or []
 
     @staticmethod
     def parse_dot(txt):
-        nodes, cur = [], None
-        for line in txt.split("\n"):
-            m = re.match(r'  v(\d+)\[shape=circle,label="ν(\d+)"(,color="#f96900")?\]; (?:/\* (.*) \*/)?$', line)
-            if m:
-                cur = (int(m.group(1)), [], m.group(4) if m.group(3) else None)
-                nodes.append(cur)
-                continue
-            m = re.match(r'  v(\d+) -> v(\d+) \[label="([^"]*)"', line)
-            if m and cur is not None and int(m.group(1)) == cur[0]:
-                cur[1].append((m.group(3), int(m.group(2))))
-            elif m:
-                nodes.append((int(m.group(1)), [("<edge outside its node>", -1)], None))
-        return nodes
+        return engine.canon_dot(txt) or []
 
     def check_doc(self, kind, nodes, snap, i):
         g = snap_graph(snap)
@@ -251,7 +233,7 @@ class C18(Prop):
                         "index": i, "expected": str(want), "observed": str(edges)}
             wd = None if g[v][1] is None else print_hex(g[v][1])
             if kind == "to_xml" and wd is not None:
-                wd = wd.replace("-", " ")
+                wd = " ".join(wd.replace("-", " ").split())       # the parser normalises white space inside <data>
             if d != wd:
                 return {"reason": "%s: data of vertex %d is %r, expected %r" % (kind, v, d, wd), "index": i,
                         "expected": str(wd), "observed": str(d)}
@@ -344,23 +326,19 @@ class C20(Prop):
         return hs
 
     def check_inspect(self, txt, snap, v, i):
-        lines = txt.split("\n")
-        if lines[0] != "ν%d" % v:
-            return {"reason": "inspect(%d) starts with %r" % (v, lines[0]), "index": i, "expected": "ν%d" % v, "observed": lines[0]}
+        doc = engine.canon_inspect(txt)
+        if doc is None or doc[0] != v:
+            return {"reason": "inspect(%d) is not a listing that starts with ν%d" % (v, v), "index": i, "expected": "ν%d" % v,
+                    "observed": txt[:200]}
         listed = []
         stack = [v]          # stack[d] = vertex whose edges are listed at depth d
-        for ln in lines[1:]:
-            if not ln:
-                continue
-            m = re.match(r"^((?:  )*)  \.(.*) ➞ ν(\d+)(…?)$", ln)
-            if not m:
-                return {"reason": "unparsable inspect line %r" % ln, "index": i, "expected": "", "observed": ln}
-            d = len(m.group(1)) // 2
+        for d, lab, tgt, _ in doc[1]:
             if d >= len(stack):
-                return {"reason": "inspect line nested deeper than its parent: %r" % ln, "index": i, "expected": "", "observed": ln}
+                return {"reason": "inspect line nested deeper than its parent: %s ➞ ν%d" % (lab, tgt), "index": i, "expected": "",
+                        "observed": txt[:300]}
             stack = stack[: d + 1]
-            listed.append((stack[d], m.group(2), int(m.group(3))))
-            stack.append(int(m.group(3)))
+            listed.append((stack[d], lab, tgt))
+            stack.append(tgt)
         # required: every edge of every present vertex reachable through present vertices, exactly once;
         # tolerated in addition: edges stored in absent (collected) slots that the walk passes through (the code follows
         # stored edges whatever the tags; the property speaks about vertices, i.e. present ones), each at most once
@@ -423,13 +401,10 @@ class C20(Prop):
             elif t[0] == "DEBUG":
                 txt = hex_text(res)
                 g = snap_graph(snap)
-                segs = re.split(r"\n(?=ν\d+ -> |b\d+: )", txt) if txt else []
                 vs = []
-                for s in segs:
+                for v, inner in engine.canon_debug(txt):
+                    s = "ν%d -> ⟦%s⟧" % (v, inner)
                     m = re.match(r"ν(\d+) -> ⟦(.*)⟧$", s, re.S)
-                    if not m:
-                        continue
-                    v = int(m.group(1))
                     vs.append(v)
                     if v not in g:
                         return {"reason": "Debug lists vertex %d which is absent" % v, "index": i, "expected": str(sorted(g)), "observed": s[:200]}
@@ -683,6 +658,10 @@ def merge_history(rng, hid, extras):
     if not big and len(lkept) >= 2 and len(grouped_with_data) >= 2 and rng.chance(1, 2):       # (a small tree is one group)
         idx = ops.index("NEW r %d" % cap)
         ops.insert(idx, "DATA g %d" % rng.pick(grouped_with_data))
+    # and one of the right tree: merge() must put it onto the left vertex as fresh, unread data all the same
+    rwd = list(dict.fromkeys(int(o.split()[2]) for o in rops if o.startswith("PUT") and int(o.split()[2]) in rkept))
+    if len(rkept) >= 2 and len(rwd) >= 2 and rng.chance(1, 2) and not os.environ.get("VERIF_NO_W10"):
+        ops.append("DATA r %d" % rng.pick(rwd))
     left = rng.pick(lkept)
     right = rroot if (not extras or rng.chance(2, 3)) else rng.pick(rkept)
     twin = []
